@@ -34,6 +34,10 @@ def meta_rules(facts, rep):
     opts = norm(ex.operand(se[0][1]["args"][2], (se[0][0], None)))
     toks = tokens(opts)
     calls = [x[1].split("::")[-1] for x in walk(opts) if x[0] == "call"]
+    if not ({"last_modified_time", "compression_method", "large_file"} <= set(calls)):
+        # not a builder chain (a struct literal with `..FileOptions::default()`, a helper returning the pair): decide the same table on
+        # the options VALUE that reaches start_entry, field by field, on every path (E9)
+        return _meta_by_value(facts, rep, rc, rule, ok, se)
     for setter, acc in (("last_modified_time", "last_modified()"), ("compression_method", "compression()"), ("large_file", "max()")):
         good = setter in calls and (acc in toks or setter == "large_file")     # (the predicate itself: C14-GUARD)
         ok &= rep.check(good, rule, "options:%s" % setter, where(rc, se[0][1]["span"]), "options.%s(file.%s)" % (setter, acc), "options.%s is not derived from the source entry" % setter)
@@ -75,6 +79,79 @@ def meta_rules(facts, rep):
             ok &= rep.check(good, rule, "start_entry:%s" % fld, where(st, s2["span"]), "%s initialised from raw_values (zero for ordinary entries)" % fld, "start_entry initialises %s from %s" % (fld, show(v)[:80]))
     rep.floor(rule, 11)
     return ok
+
+
+def _meta_by_value(facts, rep, rc, rule, ok, se):
+    from engine import sym
+    res = sym.Sym(rc).run(lambda bb_, t_: (t_.get("callee") or "").endswith("::start_entry"))
+    w = where(rc, se[0][1]["span"])
+
+    def is_acc(v, acc):
+        return v[0] == "call" and v[1] == "read::ZipFile::<'a>::%s" % acc and v[2] and v[2][0][0] in ("arg", "ref", "field") 
+
+    bad = {}
+    for r_ in res:
+        o_ = r_["args"][2]
+        for fld, acc in (("last_modified_time", "last_modified"), ("compression_method", "compression")):
+            v = sym.field_of(o_, fld)
+            if not is_acc(v, acc):
+                bad.setdefault("options:" + fld, sym.show(v)[:80])
+        lf = sym.field_of(o_, "large_file")
+        if lf[0] == "field" or (lf[0] == "call" and "default" in lf[1]):
+            bad.setdefault("options:large_file", sym.show(lf)[:80])
+        pm = sym.field_of(o_, "permissions")
+        asked = any("unix_mode" in sym.show(d_) for d_, _v in r_["state"].conds)
+        if not any(x[0] == "call" and x[1].endswith("ZipFile::<'a>::unix_mode") for x in _walk_sym(pm)) and not (sym.is_none_agg(pm) and asked):
+            bad.setdefault("options:unix_permissions", sym.show(pm)[:80])
+        for fld in ("encrypt_with", "compression_level"):
+            v = sym.field_of(o_, fld)
+            if not (v[0] == "field" and v[1][0] == "call" and "default" in v[1][1]) and not (v[0] == "agg" and v[1] == "adt:None"):
+                bad.setdefault("options:no-encryption-no-level", "%s = %s" % (fld, sym.show(v)[:60]))
+        rvv = r_["args"][3]
+        if not sym.is_some_agg(rvv):
+            bad.setdefault("raw-values-passed", sym.show(rvv)[:60])
+        else:
+            pv = sym.payload(rvv)
+            for fld, acc in (("crc32", "crc32"), ("compressed_size", "compressed_size"), ("uncompressed_size", "size")):
+                v = sym.field_of(pv, fld)
+                if not is_acc(v, acc):
+                    bad.setdefault("raw:" + fld, sym.show(v)[:80])
+    keys = ["raw:crc32", "raw:compressed_size", "raw:uncompressed_size", "raw-values-passed", "options:last_modified_time", "options:compression_method", "options:large_file",
+            "options:unix_permissions", "options:no-encryption-no-level"]
+    for k in keys:
+        ok &= bool(rep.check(bool(res) and k not in bad, rule, k, w, "%s taken from the source entry on every path to start_entry" % k, "raw copy hands start_entry %s = %s" % (k, bad.get(k, "(start_entry not reached)"))))
+    ok &= bool(rep.check(bool(res), rule, "options:unconditional", w, "decided on the value reaching start_entry on each of %d path(s)" % len(res), "start_entry is not reached"))
+    st = facts.one(ZW + "start_entry$")
+    exs = Ex(st)
+    for b2, si2, s2, f2 in aggregates(st, r"types::ZipFileData$"):
+        for fld in ("crc32", "compressed_size", "uncompressed_size"):
+            v = norm(exs.operand(f2[fld], (b2, si2)))
+            good = v[0] == "field" and v[2] == fld and any(x[0] == "call" and x[1].endswith("unwrap_or") for x in walk(v)) and "raw_values" in show(v)
+            if not good:
+                al = alts(v)
+                fields = [a for a in al if a[0] == "field" and a[2] == fld and "raw_values" in show(a) and not any(x[0] == "call" for x in walk(a))]
+                zeros = [a for a in al if a[0] == "const" and a[2] == 0]
+                good = len(fields) == 1 and len(fields) + len(zeros) == len(al) and len(zeros) <= 1
+            ok &= rep.check(good, rule, "start_entry:%s" % fld, where(st, s2["span"]), "%s initialised from raw_values (zero for ordinary entries)" % fld, "start_entry initialises %s from %s" % (fld, show(v)[:80]))
+    rep.floor(rule, 11)
+    return ok
+
+
+def _walk_sym(v):
+    yield v
+    for x in v[1:]:
+        if isinstance(x, tuple):
+            if x and isinstance(x[0], str):
+                yield from _walk_sym(x)
+            else:
+                for y in x:
+                    if isinstance(y, tuple):
+                        if y and isinstance(y[0], str):
+                            yield from _walk_sym(y)
+                        else:
+                            for z in y:
+                                if isinstance(z, tuple) and z and isinstance(z[0], str):
+                                    yield from _walk_sym(z)
 
 
 def nocodec_rules(facts, rep):
